@@ -105,7 +105,11 @@ def pca(X, centre=True, inplace=False, eps=1e-10):
         # m (mean vector): d
         m = np.mean(X, axis=0)
     else:
-        m = np.zeros(d, dtype=X.dtype)
+        # zeros of an integer (or boolean) dtype would keep X - m integer and
+        # let the products of the covariance computation overflow
+        m = np.zeros(
+            d, dtype=X.dtype if np.issubdtype(X.dtype, np.inexact) else np.float64
+        )
 
     if inplace and not np.issubdtype(X.dtype, np.inexact):
         # integer (or boolean) data can hold neither the centred data nor the
